@@ -41,7 +41,8 @@ def main(argv):
         return 2
     try:
         if replay is not None:
-            return mod.replay(replay)
+            from . import replay as R
+            return R.replay(replay)
         return mod.main(tier, seed)
     except C.Inconclusive as e:
         print('INCONCLUSIVE property=%s %s' % (what.upper(), e))
